@@ -87,3 +87,8 @@ contract(FE + 'ticc_joint_labels', props=['C04', 'C07', 'C19', 'C20'],
                    "result.window_size == window_size"),
                   ("no-result-after-a-worker-failure", "not _any_task_failed"),
                   "fresh(result)", "unchanged(data_series)"])
+
+# wrong kind of input for the joint front end: TypeError naming the single-series front end
+contract(FE + 'ticc_joint_labels#1d', props=['C20'],
+         params=dict(data_series='list[arr1[real]]', **_HYPER), returns='obj:MultipleDataSeriesResult',
+         requires=["len(data_series) >= 1"], raises={'TypeError': "True"}, ensures=[])
